@@ -213,7 +213,7 @@ def eq_val(eng, a, b):
             pa = z3.IntVal(str_code(pa)) if isinstance(pa, str) else pa
             pb = z3.IntVal(str_code(pb)) if isinstance(pb, str) else pb
             return pa == pb
-        raise NotImplementedError("string eq on multi-piece symbolic strings")
+        return str_eq_pieces(eng, a.p, b.p)
     if isinstance(a, En):
         if a.idx != b.idx: return False
         return z_and([eq_val(eng, x, y) for x, y in zip(a.f, b.f)])
@@ -224,6 +224,41 @@ def eq_val(eng, a, b):
     if hasattr(a, "eq"): return a.eq(b)
     raise TypeError(f"eq_val {a!r}")
 
+def str_eq_pieces(eng, pa, pb):
+    """equality of strings with symbolic pieces: ("int", Sc) renders as its decimal digits, ("char", Sc) as one char,
+    ("sym", term) is an atomic symbolic name"""
+    def flat(p):
+        out = []
+        for x in p:
+            if isinstance(x, str): out += list(x)
+            else: out.append(x)
+        return out
+    A, B_ = flat(pa), flat(pb); i = j = 0; conds = []
+    while i < len(A) and j < len(B_):
+        x, y = A[i], B_[j]
+        if isinstance(x, str) and isinstance(y, str):
+            if x != y: return False
+            i += 1; j += 1; continue
+        if not isinstance(x, str) and not isinstance(y, str):
+            if x[0] != y[0]: raise Unmodelled("string equality between different kinds of symbolic pieces")
+            xv = x[1].v if hasattr(x[1], "v") else x[1]; yv = y[1].v if hasattr(y[1], "v") else y[1]
+            conds.append(xv == yv); i += 1; j += 1; continue
+        # one symbolic, one concrete
+        symp, conc, k = (x, B_, j) if not isinstance(x, str) else (y, A, i)
+        if symp[0] == "int":
+            e = k
+            while e < len(conc) and isinstance(conc[e], str) and conc[e].isdigit(): e += 1
+            if e == k: return False
+            val = int("".join(conc[k:e])); sv = symp[1].v
+            conds.append(sv == val if not isinstance(sv, int) else sv == val)
+            if not isinstance(x, str): i += 1; j = e
+            else: j += 1; i = e
+        elif symp[0] == "char":
+            sv = symp[1].v; conds.append(sv == ord(conc[k]))
+            i += 1; j += 1
+        else: return False        # an atomic symbolic name never equals text that continues past it / a literal here
+    if i != len(A) or j != len(B_): return False
+    return z_and(conds)
 def map_find(eng, m, key):
     """returns entry or None (forks on symbolic key equality)"""
     for e in m.e:
